@@ -100,6 +100,17 @@ CHECKS["C14"] = dict(level="fault_enumeration", engine="E3-faults",
    note="Single fault (or one persistent burst) per run; 'no such object' answers are not injected (C09). Hang detection = request budget / coarse watchdog, never a short wall-clock oracle.",
    ref="§5 C14")
 
+CHECKS["C09"] = dict(level="model_checking", engine="E1-sequences",
+   technique="exhaustive enumeration of all event sequences (depth 3/4) x every vacuum cutoff relative to every event time (-1 s / exact / +1 s) on a logical clock; before/after differential oracles, recorded versions re-opened, independent walker over every version object present",
+   text="Every sequence of length 1..3 (quick) / 1..4 (thorough) over 13 events (INSERT/UPDATE/DELETE on two keys by w1, reconnect, refresh, a stale second writer and its refresh, a merging open, earlier vacuums) for entries_per_node 2 and 4096 is followed by s3db_vacuum on w1 with every cutoff of the form event time -1 s / exact / +1 s. Afterwards: the vacuuming connection's rows (full scan, point lookups, descending range) are unchanged and it can still INSERT/UPDATE/DELETE; a fresh reader sees what a fresh reader saw just before the vacuum (a key may differ only if its delete marker is older than the cutoff); every recorded version created at/after the cutoff or still under root/current re-opens by name with its recorded rows; the walker finds no version object, current or retired, that reaches a deleted object; repeating the vacuum keeps the rows. Crash cuts inside vacuum are enumerated by C04.",
+   note="Trusted: logical clock (H2/H5/H6) gives every version its creation time; walker decodes with generated protobuf types only. Unmerged heads of other writers count as retained (they are under root/current).",
+   ref="§5 C09")
+CHECKS["C10"] = dict(level="model_checking", engine="E1-sequences",
+   technique="same exhaustive sequence x cutoff enumeration as C09; oracles from the walker (entries of the vacuumed version, version graph before/after, reachability) and a byte-level comparison of the bucket after repeating the vacuum",
+   text="For every sequence and cutoff of the C09 space: the vacuumed current version holds no tombstone and no row whose delete time is before the cutoff; rows deleted at or after the cutoff keep their marker, and a late write with an older time committed by a stale writer and merged afterwards stays deleted; every ancestor of the vacuuming connection's version all of whose successors were created strictly before the cutoff is gone from root/merged and no object that only such versions reached is left; running the same vacuum again leaves the bucket byte-identical.",
+   note="Where the statement is silent (a successor created exactly at the cutoff, successors on both sides of it, versions outside the vacuuming connection's ancestry) either outcome is accepted.",
+   ref="§5 C10")
+
 NOT_YET = {}
 
 props = [json.loads(l) for l in open("properties.jsonl")]
